@@ -15,7 +15,8 @@ dst = os.path.join(HERE, "seeded", sid)
 os.makedirs(dst, exist_ok=True)
 for f in ("patch.diff", "demo.py", "notes.md"):
     if os.path.exists(os.path.join(src, f)):
-        shutil.copy(os.path.join(src, f), os.path.join(dst, f))
+        if os.path.abspath(os.path.join(src, f)) != os.path.abspath(os.path.join(dst, f)):
+            shutil.copy(os.path.join(src, f), os.path.join(dst, f))
 props = [prop] + extra
 r = subprocess.run([os.path.join(HERE, "tools", "seedtest.py"), dst, "--props", ",".join(props)],
                    stdout=subprocess.PIPE, stderr=subprocess.STDOUT, text=True)
